@@ -15,7 +15,11 @@ from . import gen as G
 
 CONFIGS = {
     # checks on: the profile under which the library may panic the most
-    "on": {"debug_assertions": True, "overflow_checks": True, "rustflags": ""},
+    "on": {"debug_assertions": True, "overflow_checks": True,
+           # developer knob (tools/dev/sweep_e.py --stress): registry entries must survive other inlining
+           # thresholds, so that optimiser-fragile obligations are never registered; unset in normal runs
+           "rustflags": ("-C llvm-args=-inline-threshold=%s" % os.environ["VERIF_INLINE_THRESHOLD"])
+           if os.environ.get("VERIF_INLINE_THRESHOLD") else ""},
     # checks off: release / Wasm runtime profile
     "off": {"debug_assertions": False, "overflow_checks": False, "rustflags": ""},
     # loop analysis: checks on, but no transformation that changes trip counts
